@@ -41,4 +41,14 @@ MUTANTS = {
   ('que_sort_back_tie', 'src/que.c', 'if (cmp(at + 1, it + 1) <= 0) { break; }\n            at = at->prev;\n        } while (at != &ctx->head_);\n        if (at != it->prev)\n        {\n            at = at->next;', 'if (cmp(at + 1, it + 1) <= 0) { break; }\n            at = at->prev;\n        } while (at != &ctx->head_);\n        if (at != it->prev && at != &ctx->head_)\n        {\n            at = at->next;'),
   ('que_at_neg_offbyone', 'src/que.c', 'if (--cur == idx) { return it + 1; }', 'if (cur-- == idx) { return it + 1; }'),
  ],
+ 'C06': [
+  ('catc_room', 'src/str.c', 'if (a_str_setm(ctx, ctx->num_ + 2) == 0)', 'if (a_str_setm(ctx, ctx->num_ + 1) == 0)'),
+  ('catv_no_second_format', 'src/str.c', 'res = vsnprintf(ptr, mem, fmt, va);\n    }', '(void)vsnprintf(ptr, mem - 1, fmt, va);\n    }'),
+  ('catv_fit_offbyone', 'src/str.c', 'mem = ctx->num_ + (a_size)(res + 1);\n    if (mem > ctx->mem_)', 'mem = ctx->num_ + (a_size)(res + 1);\n    if (mem > ctx->mem_ + 1)'),
+  ('cmp_len_tiebreak', 'src/str.c', 'return (n0 > n1) - (n0 < n1);', 'return (n0 < n1) ? -1 : 0;'),
+  ('ltrim_move_len', 'src/str.c', 'a_move(ctx->ptr_, p, num);\n        ctx->num_ = num;', 'a_move(ctx->ptr_, p, num - 1);\n        ctx->num_ = num;'),
+  ('getn_no_term', 'src/str.c', 'if (pdata) { a_copy(pdata, ctx->ptr_ + ctx->num_, nbyte); }\n        ctx->ptr_[ctx->num_] = 0;', 'if (pdata) { a_copy(pdata, ctx->ptr_ + ctx->num_, nbyte); ctx->ptr_[ctx->num_] = 0; }'),
+  ('utf_catc_reserve', 'src/str.c', 'int rc = a_str_setm(ctx, ctx->num_ + 7);', 'int rc = a_str_setm(ctx, ctx->num_ + 6);'),
+  ('rtrim_term_cond', 'src/str.c', 'a_str_rtrim_(ctx, s, n);\n    if (ctx->num_ < num)\n    {\n        ctx->ptr_[ctx->num_] = 0;\n    }', 'a_str_rtrim_(ctx, s, n);\n    if (ctx->num_ + 1 < num)\n    {\n        ctx->ptr_[ctx->num_] = 0;\n    }'),
+ ],
 }
